@@ -38,7 +38,7 @@ CHECKS = {
     ),
     "C01": dict(
         category="exploration",
-        text="Branch-suffix tables are proved (z3 FP) for all finite operands; the simulation contract of compile_code (emitted IC10 on a reference machine == source under the dialect) is a bounded stand-in evaluated on generated programs, because the code generator (astroid walkers) is outside the verifier's reach.",
+        text="Branch-suffix tables are proved (z3 FP) for all finite operands and the stack / device / slot / batch access emitters of types.py are proved to put every operand into the role the ISA gives it; the simulation contract of compile_code (emitted IC10 on a reference machine == source under the dialect) is a bounded stand-in evaluated on generated programs, because the code generator (astroid walkers) is outside the verifier's reach.",
         design_ref="6.C01", note="Trusted: spec/ic10_machine.py, spec/dialect.py, spec/ic10_ops.py; bounded part never counted as proved; known findings replayed on every run.",
         technique=TECH + "; bounded native contract check of compile_code as stand-in"),
     "C02": dict(
